@@ -6,6 +6,7 @@ open Base
 open C07Model
 open C06Model
 open C06InitModel
+open C06SencModel
 
 let e = C07Aes.aes128_encrypt
 let d = C07Aes.aes128_decrypt
@@ -125,6 +126,18 @@ let info_string (ti : track_info) : string =
   | None -> "clear"
   | Some (sc, t) -> cc_string sc ^ "=" ^ (match t with None -> "-" | Some t -> tenc_string t)
 
+(* ---- senc / saiz / saio byte-level cases ---- *)
+let ranges_string (l : ssp list) : string =
+  match l with [] -> "-" | _ ->
+    S.concat "," (L.map (fun p -> Printf.sprintf "%d/%d" (int_of_n p.ss_clear) (int_of_n p.ss_prot)) l)
+
+let senc_state (s : senc) : string =
+  Printf.sprintf "%d/%d/%d/%s/%s" (int_of_n s.sn_ivsize) (if s.sn_subs then 1 else 0) (int_of_n s.sn_count)
+    (match s.sn_ivs with [] -> "none" | l -> S.concat ";" (L.map hex_of_bytes l))
+    (match s.sn_ss with [] -> "none" | l -> S.concat ";" (L.map ranges_string l))
+
+let res_name = function Ok _ -> "ok" | Err -> "err" | Panic -> "panic" | OutOfFuel -> "outoffuel"
+
 let check id what model obs =
   if model = obs then Printf.printf "OK %s\n" id
   else Printf.printf "MISMATCH %s %s model=%s\n" id what
@@ -170,4 +183,42 @@ let () =
         check id "DecryptFragment"
           (res_string (fun g -> Printf.sprintf "%s|%d|%d" (string_of_mchildren g.f_children)
                           (int_of_n g.f_data_offset) (int_of_n g.f_mdat_start)) r) obs
+      | ["E"; id; sch; iv; samples; before; trafc; moofstart; tenciv; obs] ->
+        let iv0 = pad_iv (bytes_of_hex iv) in
+        let descs = L.map (fun d -> match split_on ':' d with
+            | [l; rs] -> (n_of_int (int_of_string l), ranges_of_string rs)
+            | _ -> failwith ("bad sample " ^ d)) (split_on ';' samples) in
+        let encs =
+          if sch = "cenc" then
+            let (_, acc) = L.fold_left (fun (ivc, acc) (len, ssps) ->
+                (increment_iv ivc ssps len, { e_iv = ivc; e_ssps = ssps; e_data = [] } :: acc)) (iv0, []) descs in
+            L.rev acc
+          else L.map (fun (_, ssps) -> { e_iv = []; e_ssps = ssps; e_data = [] }) descs in
+        let model =
+          match saiz_of saiz_empty encs, senc_of senc_empty encs with
+          | Ok z, Ok s ->
+            (match senc_encode s, saiz_encode z with
+             | Ok sb, Ok zb ->
+               let slen = L.length sb and zlen = L.length zb in
+               let before = L.map n_of_int (ints_of_csv before) in
+               let tc = L.map (fun x ->
+                   if x = "s" then (true, slen) else if x = "z" then (false, zlen) else if x = "i" then (false, 20)
+                   else match split_on ':' x with
+                     | ["o"; z] -> (false, int_of_string z)
+                     | _ -> failwith ("bad traf child " ^ x)) (if trafc = "-" then [] else split_on ',' trafc) in
+               let off = saio_offset before (L.map (fun (b, z) -> (b, n_of_int z)) tc) in
+               let ms = int_of_string moofstart in
+               let rec upto acc = function [] -> acc | (true, _) :: _ -> acc | (false, z) :: t -> upto (acc + z) t in
+               let senc_start = ms + 8 + L.fold_left (fun a b -> a + int_of_n b) 0 before + 8 + upto 0 tc in
+               let st p =
+                 res_string senc_state (traf_senc (n_of_int p) (n_of_int ms) (n_of_int senc_start) (Some off) sb) in
+               S.concat "|" (["ok"; hex_of_bytes sb; hex_of_bytes zb; hex_of_bytes (saio_encode off); string_of_int senc_start]
+                             @ L.map st [int_of_string tenciv; int_of_string tenciv; 0; 8; 16])
+             | a, b -> "encode-" ^ (if res_name a <> "ok" then res_name a else res_name b))
+          | a, b -> if res_name a <> "ok" then res_name a else res_name b in
+        check id "senc/saiz/saio bytes + ParseReadSenc" model obs
+      | ["M"; id; data; obs] ->
+        let box = bytes_of_hex data in
+        let model = S.concat "|" (L.map (fun p -> res_string senc_state (senc_parse (n_of_int p) box)) [0; 8; 16; 5]) in
+        check id "DecodeSenc + ParseReadBox" model obs
       | _ -> Printf.printf "BADLINE %s\n" (if S.length line > 200 then S.sub line 0 200 else line))
